@@ -434,7 +434,17 @@ impl Execute for ast::Pipeline {
         // We reuse `suppress_errexit` here because bash suppresses the ERR trap in
         // exactly the same contexts it suppresses errexit (conditionals, `!`-prefixed
         // pipelines, etc.).
-        if !result.is_success() && !params.suppress_errexit && !self.bang {
+        //
+        // A `return N` travelling out of a function is not a command failing here; the
+        // function call it ends is judged at its call site.
+        if !result.is_success()
+            && !params.suppress_errexit
+            && !self.bang
+            && !matches!(
+                result.next_control_flow,
+                ExecutionControlFlow::ReturnFromFunctionOrScript
+            )
+        {
             if shell.traps().handles(crate::traps::TrapSignal::Err) {
                 shell
                     .invoke_trap_handler(crate::traps::TrapSignal::Err, &params)
